@@ -181,6 +181,20 @@ CHECKS = {
         "note": "Book sizes and fill sums compared at 1e-9 (the book stores floats); books sorted best-first with bids <= mark <= asks; a level "
         "exactly on a cap may go either way. Closed bars are C16's subject. Sampled books and streams.",
     },
+    "C01": {
+        "technique": "reference-model monitor: independent exact valuation plus an ownership ledger replayed from action records, compared with every AccountStatus taken by the real bar loop and after every direct operation",
+        "text": "Multi-market accounts (uniswap+aave+gmx, squeeth with its pool and LP positions lent to / returned from / redeemed by a vault, "
+        "deribit ETH/BTC-quoted next to a minutely pool with cash moved on closed bars and options settling in the loop, all six market types "
+        "+ GMX v2, real-data slices) are run through the real Actuator (1- and 5-min bars, operations in every phase) with the account quote "
+        "equal to and different from each market's quote and price frames on and off the pool prices; frozen scenes are queried through "
+        "Broker.get_account_status after every accepted or rejected operation. At every bar / query the reported asset value, wallet "
+        "balances, each market's net value, the total, the sum formula with the quote-token conversion, the bar-end holdings and the "
+        "account_status_df row are compared with a Fraction valuation computed from the state projection and the harness's own copies of "
+        "the raw rows and price frame; every liquidity position is assigned to exactly one owner (pool market or vault) and counted once.",
+        "note": "Tolerances: 1e-12 x gross scale; aave 1e-4 (its own rounding); deribit half a fee step per contract; squeeth 1e-9 on the "
+        "float-TWAP part; gmx2 1e-9. On closed deribit bars options carry the mark of the last valued open bar; correctness of the position "
+        "amounts themselves belongs to C07/C08/C10/C15/C17; ownership is read from action records. Sampled, not exhaustive.",
+    },
     "C04": {
         "technique": "invariant at quiescent points: deep state projection compared around every raising call, rejection sites taken from tracebacks",
         "text": "Frozen-market scenes of every market type (uniswap, aave, uniswap+aave, squeeth with its pool, deribit incl. closed bars, "
